@@ -420,7 +420,8 @@ Proof. vm_compute. reflexivity. Qed.
    (nearest first).  Present as a non-object: the child's value.  Absent: the nearest enclosing value.  Present as an
    object in the child AND in an enclosing object: the nested sections are MERGED -- the child's entries win, the
    enclosing section's entries for the keys the child lacks are added.  (So a key the child's nested section leaves out
-   takes the parent's nested value before any default / zero / required rule applies.) *)
+   takes the parent's nested value before any default / zero / required rule applies; one level only, see
+   c05_inherit_shallow_example.) *)
 Theorem c05_inherit :
   (forall k m anc v, olookup k m = Some v -> (forall vm, v <> JObj vm) -> inh_lookup k (m :: anc) = Some v) /\
   (forall k m anc, olookup k m = None -> inh_lookup k (m :: anc) = inh_lookup k anc) /\
@@ -451,6 +452,49 @@ Example c05_inherit_nested_example :
   = Ok (VStruct [VStruct [VStr "pc"; VStr "pk"; VInt 13]; VStruct [VStruct [VStr "cc"; VStr "pk"; VInt 13]]]) /\
   unmarshal_inh (fuel_of t) t (JObj [("tls", JObj [("cert", JStr "pc" None)]); ("rpc", JObj [])]%string)
   = Ok (VStruct [VStruct [VStr "pc"; VStr ""; VInt 12]; VStruct [VStruct [VStr "pc"; VStr ""; VInt 12]]]).
+Proof. vm_compute. split; reflexivity. Qed.
+
+(* the merge is SHALLOW: only the entries of the value found under the inherit key are filled from the enclosing section.
+   A sub-section nested inside an inherited section (etcd.tls, not itself tagged) is taken exactly as the child wrote it:
+   an absent optional key stays "", a default= key gets its default, an absent required key makes unmarshalling fail *)
+Example c05_inherit_shallow_example :
+  let tls := Struct [mkfield "cert" no_opts false (Prim KStr);
+                     mkfield "key" (mkopts true None [] None false None false) false (Prim KStr);
+                     mkfield "min" (mkopts false (Some "12") [] None false None false) false (Prim (KInt W64))]%string in
+  let etcd := Struct [mkfield "hosts" (mkopts true None [] None false None false) false (Prim KStr); mkfield "tls" no_opts false tls]%string in
+  let inh := mkopts false None [] None false None true in
+  let t := Struct [mkfield "etcd" no_opts false etcd; mkfield "rpc" no_opts false (Struct [mkfield "etcd" inh false etcd])]%string in
+  let fi := mkfi true true true in
+  let parent := ("etcd", JObj [("hosts", JStr "ph" None); ("tls", JObj [("cert", JStr "pc" None); ("key", JStr "pk" None); ("min", JNum "13" fi)])])%string in
+  unmarshal_inh (fuel_of t) t (JObj [parent; ("rpc", JObj [("etcd", JObj [("tls", JObj [("cert", JStr "cc" None)])])])]%string)
+  = Ok (VStruct [VStruct [VStr "ph"; VStruct [VStr "pc"; VStr "pk"; VInt 13]];
+                 VStruct [VStruct [VStr "ph"; VStruct [VStr "cc"; VStr ""; VInt 12]]]]) /\
+  (exists e, unmarshal_inh (fuel_of t) t (JObj [parent; ("rpc", JObj [("etcd", JObj [("tls", JObj [("key", JStr "ck" None)])])])]%string) = Err e) /\
+  unmarshal_inh (fuel_of t) t (JObj [parent; ("rpc", JObj [("etcd", JObj [("hosts", JStr "ch" None)])])]%string)
+  = Ok (VStruct [VStruct [VStr "ph"; VStruct [VStr "pc"; VStr "pk"; VInt 13]];
+                 VStruct [VStruct [VStr "ch"; VStruct [VStr "pc"; VStr "pk"; VInt 13]]]]).
+Proof. vm_compute. split; [reflexivity|]. split; [eexists; reflexivity | reflexivity]. Qed.
+
+(* ... and it is done IN PLACE on the decoded document: the same document, the same member types, only the declaration
+   order of `etcd` and `rpc` swapped -- rpc.etcd.tls.key is "pk" when top.etcd.tls had already been filled from top.tls,
+   "" otherwise (rpc.tls = null stops the lookup at rpc) *)
+Example c05_inherit_order_dependent :
+  let opt := mkopts true None [] None false None false in
+  let inh := mkopts false None [] None false None true in
+  let oinh := mkopts true None [] None false None true in
+  let tls := Struct [mkfield "cert" no_opts false (Prim KStr); mkfield "key" opt false (Prim KStr)]%string in
+  let etcd := Struct [mkfield "tls" inh false tls]%string in
+  let rpc := Struct [mkfield "tls" oinh false tls; mkfield "etcd" oinh false etcd]%string in
+  let d := JObj [("tls", JObj [("cert", JStr "cc" None); ("key", JStr "pk" None)]);
+                 ("etcd", JObj [("tls", JObj [("cert", JStr "pc" None)])]); ("rpc", JObj [("tls", JNull)])]%string in
+  let t1 := Struct [mkfield "tls" no_opts false tls; mkfield "etcd" no_opts false etcd; mkfield "rpc" no_opts false rpc]%string in
+  let t2 := Struct [mkfield "tls" no_opts false tls; mkfield "rpc" no_opts false rpc; mkfield "etcd" no_opts false etcd]%string in
+  unmarshal_inh (fuel_of t1) t1 d
+  = Ok (VStruct [VStruct [VStr "cc"; VStr "pk"]; VStruct [VStruct [VStr "pc"; VStr "pk"]];
+                 VStruct [VStruct [VStr ""; VStr ""]; VStruct [VStruct [VStr "pc"; VStr "pk"]]]]) /\
+  unmarshal_inh (fuel_of t2) t2 d
+  = Ok (VStruct [VStruct [VStr "cc"; VStr "pk"]; VStruct [VStruct [VStr ""; VStr ""]; VStruct [VStruct [VStr "pc"; VStr ""]]];
+                 VStruct [VStruct [VStr "pc"; VStr "pk"]]]).
 Proof. vm_compute. split; reflexivity. Qed.
 
 (* ---------------- non-vacuity *)
